@@ -496,10 +496,37 @@ pub fn run(ctx: &mut Ctx) {
                         json!({"s": hexs(&s), "mask": mask}),
                     );
                 }
-                if let Ok(bytes) = r {
+                if let Ok(bytes) = &r {
                     // payload must be carried unchanged
                     if !bytes.ends_with(&s) {
                         ctx.violation("C14/utf8lit/payload-changed", format!("payload changed for {:?}", s), json!({"s": hexs(&s), "mask": mask}));
+                    }
+                }
+                // the same delivery with one read interrupted (EINTR, retried by the library) between any two
+                // pieces: still the same text, so the same verdict and the same bytes
+                if len <= 4 || mask % 4 == si % 4 {
+                    for k in 0..=splits.len() + 1 {
+                        let fault = crate::shim::Fault { at_call: k, sticky: false, kind: crate::shim::FaultKind::Interrupted };
+                        let r2 = ctx.guarded("C14/utf8lit-interrupted", || json!({"s": hexs(&s), "mask": mask, "interrupted_call": k}), || {
+                            let rng = rand_chacha::ChaCha8Rng::from_seed([1u8; 32]);
+                            let mut b = MessageBuilder::from_reader("", SchedReader::new(s.clone(), Sched::SplitAt(splits.clone())).with_fault(Some(fault)));
+                            b.data_mode(DataMode::Utf8).expect("utf8 mode");
+                            b.to_vec(rng)
+                        });
+                        ctx.eval();
+                        let Some(r2) = r2 else { continue };
+                        let same = match (&r, &r2) {
+                            (Ok(a), Ok(b)) => a == b,
+                            (Err(_), Err(_)) => true,
+                            _ => false,
+                        };
+                        if !same {
+                            ctx.violation(
+                                format!("C14/utf8lit/interrupted-read-changes-verdict/{}", if r.is_ok() { "valid-text-rejected" } else { "invalid-text-accepted" }),
+                                format!("Utf8 literal builder: s={:?} chunks={:?}: ok={} without and ok={} with an interrupted read at source call {k}", s, splits, r.is_ok(), r2.is_ok()),
+                                json!({"s": hexs(&s), "mask": mask, "interrupted_call": k}),
+                            );
+                        }
                     }
                 }
             }
